@@ -37,6 +37,9 @@ package registry
 //@   requires app != nil && ctx != nil && state != nil && rt != nil
 //@   precall api\.MessageDispatcher\)\.Publish$ :: api.GPublishes != old(api.GPublishes) || (defined(stakeParams) && stakeParams != nil && (registry.RtHasAddr(rt) && !stakeParams.DebugBypassStake ==> stakingState.GClaim[registry.RtAddr(rt)][RtClaim(rt)] && (existingRt != nil && registry.RtHasAddr(existingRt) && registry.RtAddr(existingRt) != registry.RtAddr(rt) ==> !stakingState.GClaim[registry.RtAddr(existingRt)][RtClaim(rt)])))
 //@   precall registry/state\.MutableState\)\.(SetRuntime|SetRuntimeOwner|RemoveRuntimeOwner)$ :: api.GPublishes > old(api.GPublishes) && err == nil
+//@   precall registry/state\.MutableState\)\.SetRuntimeOwner$ :: argIs(1, rt.ID) && argIs(2, rt.EntityID)
+//@   precall registry/state\.MutableState\)\.RemoveRuntimeOwner$ :: argIs(1, rt.ID) && existingRt != nil && argIs(2, existingRt.EntityID)
+//@   note (C17) the by-entity index of runtimes - what the "entity still owns runtimes" guard of entity deregistration reads - is written for the entity the NEW descriptor names and removed for the entity the existing descriptor named (seed C17_h put the entry back under the previous owner on an ownership transfer)
 //@   note (C08) the registry state handed in by the caller is bound to the tree OUTSIDE this handler's transaction context, so what is written through it survives a failing transaction: the runtime descriptor and the owner index are written only after the last check that can reject the registration - after the other applications were notified (MessageRuntimeUpdated published) without an error
 //@   note when the registration is announced to the other applications (first message published), the runtime's stake claim is recorded on the account that now owns the runtime and, if the owning account changed, no longer on the previous one: the recorded claims are exactly those implied by the registered runtimes
 
